@@ -69,10 +69,14 @@ def concat_ok(a, b, k, why=None):
     return r is None
 
 
-def _sugar_ok(si, i1, i2):
+def _sugar_ok(si, i1, i2, sp=-1):
     pfx, name, n = SUGAR[si]
     args = [INNER[i1]] + ([INNER[i2]] if n == 2 else [])
-    short = pfx + " ".join(args)
+    if sp < 0:
+        short = pfx + " ".join(args)
+    else:
+        # any separator (whitespace, comment, discard) between the mark and its operand(s) is transparent too
+        short = pfx.strip() + SEPS[sp] + SEPS[sp].join(args)
     if name == "annotate":
         long_ = "(annotate %s %s)" % (args[1], args[0])
     else:
@@ -83,13 +87,13 @@ def _sugar_ok(si, i1, i2):
     return None
 
 
-def sugar_ok(si, i1, i2, why=None):
+def sugar_ok(si, i1, i2, why=None, sp=-1):
     from vf import skel
 
     if why is None and skel.EXPLAIN[0]:
         del skel.LAST_WHY[:]
         why = skel.LAST_WHY
-    r = strsym.untraced(_sugar_ok, si, i1, i2)
+    r = strsym.untraced(_sugar_ok, si, i1, i2, sp)
     if r is not None and why is not None:
         why.append(r)
     return r is None
@@ -116,6 +120,9 @@ def spec(tier, seed):
     obs.append(Ob("hconcat", "\n".join(L), sample="read(t1 + t2) == read(t1) + read(t2) for all pairs of form sequences and split points", group="concatenation"))
     L = ["def hsugar(si: int, i1: int, i2: int) -> bool:", '    """', "    post: _", '    """', "    return sugar_ok(_sk.box(si, 0, %d), _sk.box(i1, 0, %d), _sk.box(i2, 0, %d))" % (len(SUGAR) - 1, len(INNER) - 1, len(INNER) - 1)]
     obs.append(Ob("hsugar", "\n".join(L), sample="sugar %r vs long forms over inner forms %r" % ([s[0] for s in SUGAR], INNER), group="sugar"))
+    L = ["def hsugarsep(si: int, i1: int, sp: int) -> bool:", '    """', "    post: _", '    """',
+         "    return sugar_ok(_sk.box(si, 0, %d), _sk.box(i1, 0, %d), 0, None, _sk.box(sp, 0, %d))" % (len(SUGAR) - 1, len(INNER) - 1, ns - 1)]
+    obs.append(Ob("hsugarsep", "\n".join(L), sample="sugar mark, then any separator of %r, then the operand(s), vs the long form" % (SEPS,), group="sugar"))
     tw = "\n".join(["def twin0(s0: int) -> bool:", '    """', "    post: _", '    """', "    sep_ok(0, _sk.box(s0, 0, 3), 0, 0, -1, -1)", "    return False"])
     obs.append(Ob("twin0", tw, twin=True, group="twin"))
     return {
@@ -128,7 +135,7 @@ def spec(tier, seed):
         "grade": "R/D",
         "functions_encoded": ["hy.reader.reader.Reader.slurp_space / isnormalizedspace", "HyReader handlers for ; and #_ and the sugar prefixes ' ` ~ ~@ #* #** #^"],
         "bounds": "%d form sequences over %d form kinds %r; each boundary separator from %r (%d choices; third boundary restricted in quick), optional leading/trailing separator; concatenation law "
-                  "for every pair of sequences and split; sugar vs long form for %d prefixes x %d inner forms" % (len(SEQS), len(FORMS), FORMS, SEPS, ns, len(SUGAR), len(INNER)),
+                  "for every pair of sequences and split; sugar vs long form for %d prefixes x %d inner forms, also with every separator between the mark and its operand(s)" % (len(SEQS), len(FORMS), FORMS, SEPS, ns, len(SUGAR), len(INNER)),
         "outside": "other separators (non-ASCII whitespace), longer sequences",
         "stubs": ["reader call executed under crosshair.tracers.NoTracing"],
         "assumptions": ["model equality is type-aware and structural (vf/readerlib.py:meq); positions are not compared"],
